@@ -1194,6 +1194,43 @@ func ruleC16Carry(p *Program, r *Run, fd *ast.FuncDecl) {
 		}
 		return true
 	})
+	// the same loop written with an index: for i := 0; i < len(statements)-1; i++ { stmt := statements[i] ... } (the
+	// bound possibly through a local); the statement is the variable defined once as statements[i] in the body
+	if rangeVal == nil {
+		inspectRegion(region, func(x ast.Node) bool {
+			fs, ok := x.(*ast.ForStmt)
+			if !ok || rangeVal != nil || fs.Init == nil || fs.Cond == nil || fs.Post == nil {
+				return true
+			}
+			init, ok1 := fs.Init.(*ast.AssignStmt)
+			cond, ok2 := fs.Cond.(*ast.BinaryExpr)
+			post, ok3 := fs.Post.(*ast.IncDecStmt)
+			if !ok1 || !ok2 || !ok3 || len(init.Lhs) != 1 || len(init.Rhs) != 1 || cond.Op != token.LSS || post.Tok != token.INC {
+				return true
+			}
+			iv := objOf(info, init.Lhs[0])
+			if v, isC := constInt(info, init.Rhs[0]); iv == nil || !isC || v != 0 || objOf(info, cond.X) != iv || objOf(info, post.X) != iv || !lenMinus1(cond.Y) {
+				return true
+			}
+			if writesTo(info, fs.Body, iv) {
+				return true
+			}
+			for _, st := range fs.Body.List {
+				as, isAs := st.(*ast.AssignStmt)
+				if !isAs || len(as.Lhs) != 1 || len(as.Rhs) != 1 {
+					continue
+				}
+				ix, isIx := ast.Unparen(as.Rhs[0]).(*ast.IndexExpr)
+				if !isIx || p.entOf(ix.X) != stmts || objOf(info, ix.Index) != iv {
+					continue
+				}
+				if o := objOf(info, as.Lhs[0]); o != nil && p.neverReassigned(o) {
+					rangeVal = o
+				}
+			}
+			return true
+		})
+	}
 	r.Check(rangeVal != nil, "C16/carry", fn+" every terminated piece is visited", p.Pos(fd.Pos()), "for _, stmt := range statements[:len(statements)-1]", "the loop over the split result does not visit exactly all pieces but the last")
 	var tailVar types.Object
 	inspectRegion(region, func(x ast.Node) bool {
